@@ -187,6 +187,7 @@ structure Ev (j0 : Job) (d rr : Bool) (s : XSnap) : Prop where
   hrr : s.mem.spec.resvRef = rr
   pod : s.pod.isSome = true
   last : rr = true → ∃ r3, s.last = some r3 ∧ resvSucceeded r3 = false
+  target : ∀ p, s.pod = some p → s.mem.spec.podUID = 0 ∨ p.uid = s.mem.spec.podUID
 
 /-- how a snapshot taken later relates to the state `x` -/
 structure Rel (x : X) (s : XSnap) : Prop where
@@ -322,11 +323,11 @@ def QLast (rr : Bool) (pod : Option Pod) : X → Prop :=
   fun x' => pod = none → rr = true → ∃ r3, x'.last = some r3 ∧ resvSucceeded r3 = false
 
 theorem spec_boundByOtherX {P : XSnap → Prop} {x : X} (h : CI j0 d rr x) (pod : Option Pod) :
-    Spec j0 d rr (QLast rr pod) P x (boundByOtherX x pod) := by
+    Spec j0 d rr (fun x' => x'.m.mem = x.m.mem ∧ QLast rr pod x') P x (boundByOtherX x pod) := by
   unfold boundByOtherX
   split
   · rename_i hnr
-    refine ⟨h, Kp.refl x, ?_⟩
+    refine ⟨h, Kp.refl x, rfl, ?_⟩
     intro _ hrr
     have := h.m.rr
     rw [hrr] at this
@@ -345,10 +346,10 @@ theorem spec_boundByOtherX {P : XSnap → Prop} {x : X} (h : CI j0 d rr x) (pod 
           · split
             · exact Or.inl ((kp_getResv x).trans (kp_abortWith _ _)).xs
             · split
-              · exact ⟨ci_getResv h hc0, kp_getResv x, fun hp => by cases hp⟩
+              · exact ⟨ci_getResv h hc0, kp_getResv x, getResv_mem x, fun hp => by cases hp⟩
               · exact Or.inl ((kp_getResv x).trans (kp_abortWith _ _)).xs
           · rename_i hs
-            exact ⟨ci_getResv h hc0, kp_getResv x, fun _ _ => ⟨r, hr, by simpa using hs⟩⟩
+            exact ⟨ci_getResv h hc0, kp_getResv x, getResv_mem x, fun _ _ => ⟨r, hr, by simpa using hs⟩⟩
 
 theorem spec_evictGoneX {P : XSnap → Prop} {x : X} (h : CI j0 d rr x) : Spec j0 d rr T P x (evictGoneX x) := by
   unfold evictGoneX
@@ -387,7 +388,19 @@ theorem spec_evictPodX {x : X} (h : CI j0 d rr x) : Spec j0 d rr T (Rel x) x (ev
           · exact Or.inl ky.xs
           · refine Spec.from ky (Spec.bind (spec_boundByOtherX hy none) ?_)
             intro z hz kz qz
-            have hev : Ev j0 d rr (snapOf z p) := ⟨hz.m.j0, hz.lz, hz.m.ml, hz.m.al, hz.m.d, hz.m.rr, rfl, qz rfl⟩
+            have htg : x.m.mem.spec.podUID = 0 ∨ p.uid = x.m.mem.spec.podUID := by
+              rename_i hne _
+              simp only [Bool.and_eq_true, bne_iff_ne, ne_eq, not_and, Decidable.not_not] at hne
+              by_cases h0 : x.m.mem.spec.podUID = 0
+              · exact Or.inl h0
+              · exact Or.inr (hne h0).symm
+            have hzm : z.m.mem = x.m.mem := qz.1
+            have hev : Ev j0 d rr (snapOf z p) :=
+              ⟨hz.m.j0, hz.lz, hz.m.ml, hz.m.al, hz.m.d, hz.m.rr, rfl, qz.2 rfl, by
+                intro p' hp'
+                cases hp'
+                show z.m.mem.spec.podUID = 0 ∨ p.uid = z.m.mem.spec.podUID
+                rw [hzm]; exact htg⟩
             have hrel : Rel x (snapOf z p) := Rel.trans (ky.trans kz) ⟨rfl, (kp_pre z).pre, Nat.le_refl _⟩
             split
             · exact Or.inr ⟨snapOf z p, (kp_updateCondition _ _).xs, hev, hrel⟩
@@ -671,6 +684,8 @@ structure GoodX (w : World) (s : XSnap) : Prop where
     s.mem.spec.resvRef = true ∧ s.looks ≠ [] ∧
     ∃ r2, s.gate = some r2 ∧ resvPending r2 = false ∧ resvExpired r2 = false ∧
       (resvScheduled r2 = true ∨ (r2.needPreempt = true ∧ s.env.preempt = 2)) ∧ r2.pendingMode = false
+  /-- the pod handed to the evictor is the job's target (the recorded PodRef.UID), never a same-name replacement -/
+  target : ∀ p, s.pod = some p → s.mem.spec.podUID = 0 ∨ p.uid = s.mem.spec.podUID
 
 theorem goodX_of {w : World} {s : XSnap} (he : Ev w.job w.job.spec.direct w.job.spec.resvRef s)
     (hp : w.job.spec.direct = false → PF w.job.spec.resvRef s) : GoodX w s where
@@ -683,6 +698,7 @@ theorem goodX_of {w : World} {s : XSnap} (he : Ev w.job w.job.spec.direct w.job.
   gates := fun hd => by
     obtain ⟨hrr, hl, r2, hg, hpg⟩ := hp hd
     exact ⟨by rw [he.hrr]; exact hrr, hl, r2, hg, hpg⟩
+  target := he.target
 
 /-- the evictor log of one extended reconcile: empty, or one snapshot that is `GoodX` -/
 theorem reconcileX_evicts (w : World) (sc : Script) :
@@ -743,6 +759,12 @@ theorem evict_lookups_answered_history (ops : List OpX) :
   intro w s hs
   obtain ⟨w', hg⟩ := runX_good ops w s hs
   exact hg.looks
+
+theorem evict_target_only_history (ops : List OpX) :
+    ∀ w : World, ∀ s ∈ (runX w ops).2, ∀ p, s.pod = some p → s.mem.spec.podUID = 0 ∨ p.uid = s.mem.spec.podUID := by
+  intro w s hs
+  obtain ⟨w', hg⟩ := runX_good ops w s hs
+  exact hg.target
 
 /-! ### non-live phases are absorbing -/
 
@@ -825,6 +847,18 @@ example : (reconcileX xrWorld ⟨0, 0, [(7, .resv none)]⟩).2.evicts = [] ∧
 example : (reconcileX xrWorld ⟨0, 0, [(7, .resv (some ⟨RPh.succeeded, 1, 1, 0, false, 9, false, true, false⟩))]⟩).2.evicts = [] ∧
     (reconcileX xrWorld ⟨0, 0, [(7, .resv (some ⟨RPh.succeeded, 1, 1, 0, false, 9, false, true, false⟩))]⟩).1.job.status.phase
       = Ph.failed := by decide
+
+/-- the pod was replaced by a same-name pod of uid 2 (the job recorded PodRef.UID 1): no eviction, the job is aborted
+    with reason MissingPod -/
+example : (reconcileX { xrWorld with env := { xrWorld.env with pod := some ⟨2, 3, 0, 0, false⟩ } } ⟨0, 0, []⟩).2.evicts = [] ∧
+    (reconcileX { xrWorld with env := { xrWorld.env with pod := some ⟨2, 3, 0, 0, false⟩ } } ⟨0, 0, []⟩).1.job.status.phase
+      = Ph.failed ∧
+    (reconcileX { xrWorld with env := { xrWorld.env with pod := some ⟨2, 3, 0, 0, false⟩ } } ⟨0, 0, []⟩).1.job.status.reason
+      = Rs.missingPod := by decide
+
+/-- the same replacement happening INSIDE the reconcile, right before evictPod's Get of the pod (API call 6) -/
+example : (reconcileX xrWorld ⟨0, 0, [(6, .pod (some ⟨2, 3, 0, 0, false⟩))]⟩).2.evicts = [] ∧
+    (reconcileX xrWorld ⟨0, 0, [(6, .pod (some ⟨2, 3, 0, 0, false⟩))]⟩).1.job.status.phase = Ph.failed := by decide
 
 /-- a terminal job: nothing happens even with a script -/
 example : (reconcileX { xrWorld with job := { xrJob with status := { xrJob.status with phase := Ph.failed } } }
